@@ -329,6 +329,14 @@ func (e *Engine) runFrame(fr *frame) {
 		}
 		r := recover()
 		if _, isTP := r.(targetPanic); !isTP {
+			switch r.(type) {
+			case pathEnd, specAbort:
+			default:
+				if e.crashWhere == "" {
+					e.cur = fr
+					e.crashWhere = e.where()
+				}
+			}
 			panic(r) // pathEnd or engine bug
 		}
 		fr.panicking = true
